@@ -98,6 +98,28 @@ KronSeq(Ms)    == FoldLeft(LAMBDA acc, a : Kron2(acc, Ms[a]), Ms[1], [a \in 1..(
 IsSymmetric(M) == \A i \in 1..Len(M) : \A j \in 1..(i - 1) : M[i][j] = M[j][i]
 RowSumsZero(M) == \A i \in 1..Len(M) : SumSeq(M[i]) = Zero
 
+(* rank by elimination modulo the prime 32749 (PP^2 < 2^31, so no overflow; denominators here are products of small
+   integers, never divisible by PP).  rank over Q >= rank over GF(PP): a minor that is non-zero mod PP is non-zero.
+   Together with an exactly verified null vector (K 1 = 0) the value n-1 therefore PROVES rank_Q = n-1.            *)
+PP == 32749
+RECURSIVE EGcd(_, _)
+EGcd(a, b) == IF b = 0 THEN <<a, 1, 0>>                     \* <<g, s, t>> with s a + t b = g
+              ELSE LET e == EGcd(b, a % b) IN <<e[1], e[3], e[2] - (a \div b) * e[3]>>
+InvP(a)  == EGcd(a % PP, PP)[2] % PP
+RatP(q)  == ((q[1] % PP) * InvP(q[2] % PP)) % PP
+RECURSIVE RankPFrom(_, _, _, _)
+RankPFrom(M, r, c, acc) ==
+  IF r > Len(M) \/ c > Len(M[1]) THEN acc
+  ELSE IF \A i \in r..Len(M) : M[i][c] = 0 THEN RankPFrom(M, r, c + 1, acc)
+  ELSE LET piv == CHOOSE i \in r..Len(M) : M[i][c] # 0
+           M1  == [M EXCEPT ![r] = M[piv], ![piv] = M[r]]
+           iv  == InvP(M1[r][c])
+           M2  == Tab(Len(M), LAMBDA i : IF i <= r THEN M1[i]
+                    ELSE LET f == (M1[i][c] * iv) % PP IN
+                         Tab(Len(M[1]), LAMBDA j : (M1[i][j] - ((f * M1[r][j]) % PP)) % PP))
+       IN RankPFrom(M2, r + 1, c + 1, acc + 1)
+RankModP(M) == RankPFrom(Tab(Len(M), LAMBDA i : Tab(Len(M[1]), LAMBDA j : RatP(M[i][j]))), 1, 1, 0)
+
 (* tensor-product forms on the parameter domain.  tab[a][du+1][dv+1] = Biform(kvs[a], ps[a], du, dv), du, dv <= 1.
    GradGrad(tab, ca, cb)[I][J] = int d/dxi_ca B_I(test) d/dxi_cb B_J(trial), coordinates ca, cb 1-based, 1 = x. *)
 BiTab(kvs, ps) == Tab(Len(kvs), LAMBDA a : Tab(2, LAMBDA x : Tab(2, LAMBDA y : Biform(kvs[a], ps[a], x - 1, y - 1))))
